@@ -96,6 +96,21 @@ def merkleCovers (a b : List (Nat × Nat)) (ranges : List (Nat × Nat)) : Bool :
   let keys := a.map (·.1) ++ b.map (·.1)
   keys.all fun k => lookupKV a k == lookupKV b k || covered ranges k
 
+/-- equal as Python dicts: the same keys, and per key values of the same `==` class (`cls` maps a
+    serialisation id to its equality class: `1`, `1.0`, `True` are three serialisations of one class) -/
+def pyEqualMaps (cls : Nat → Nat) (a b : List (Nat × Nat)) : Bool :=
+  let keys := a.map (·.1) ++ b.map (·.1)
+  keys.all fun k => (lookupKV a k).map cls == (lookupKV b k).map cls
+
+/-- the property's Merkle clauses with "equal" read as Python's `==` on dicts (an alternative reading
+    to serialised identity; the two coincide when `cls` is injective on the values that occur) -/
+def merkleEmptyIffEqualC (cls : Nat → Nat) (a b : List (Nat × Nat)) (ranges : List (Nat × Nat)) : Bool :=
+  ranges.isEmpty == pyEqualMaps cls a b
+
+def merkleCoversC (cls : Nat → Nat) (a b : List (Nat × Nat)) (ranges : List (Nat × Nat)) : Bool :=
+  let keys := a.map (·.1) ++ b.map (·.1)
+  keys.all fun k => (lookupKV a k).map cls == (lookupKV b k).map cls || covered ranges k
+
 /-! ### t-digest: values cross as order-preserving integer keys of the doubles -/
 
 def nondecreasing : List Int → Bool
